@@ -483,3 +483,103 @@ theorem treeContainsBS_refines (t : Node) (h : Inv t) (o : Origin) : treeContain
 
 end Ix
 end Cors
+
+/-! ### `headers.Check` with the library's binary search in it -/
+namespace Cors
+namespace Ix
+open Gen
+
+/-- `SortedSet.IndexAfter` with `slices.BinarySearch` spelled out. -/
+def indexAfterBS (set : SortedSet) (n : Int) (e : Bytes) : Chk (Option Int) := do
+  if set.maxLen < e.length then return none
+  let start := n + 1
+  let tail ← sliceG set.elems start (lenG set.elems)         -- set.elems[start:]
+  let r := binarySearch Bytes.lt e tail                       -- i, found := slices.BinarySearch(set.elems[start:], e)
+  if !r.2 then return none
+  return some (start + r.1)
+
+theorem indexAfterBS_eq (set : SortedSet) (h : set.WF) (n : Int) (e : Bytes) : indexAfterBS set n e = indexAfter set n e := by
+  unfold indexAfterBS indexAfter
+  by_cases hm : set.maxLen < e.length
+  · simp [hm]
+  · simp only [hm, if_false]
+    simp only [bind, Except.bind]
+    cases hs : sliceG set.elems (n + 1) (lenG set.elems) with
+    | error u => rfl
+    | ok tail =>
+      simp only []
+      have hsub : tail.Pairwise (fun a b => Bytes.lt a b = true) := by
+        unfold sliceG at hs
+        split at hs
+        · simp only [Except.ok.injEq] at hs
+          rw [← hs]
+          exact List.Pairwise.sublist ((List.drop_sublist _ _).trans (List.take_sublist _ _)) h.sorted
+        · cases hs
+      have hb := binarySearch_sorted Bytes.lt e tail (fun a b c h1 h2 => Bytes.lt_trans h1 h2) hsub
+      have hf := findPos_sorted Bytes.lt e tail Bytes.lt_irrefl hsub
+      have hfi : SortedSet.findIdx e tail = findPos e tail := by
+        clear hs hsub hb hf
+        induction tail with
+        | nil => rfl
+        | cons x xs ih => simp only [SortedSet.findIdx, findPos, ih]
+      rw [hb, hfi, hf]
+      cases (bsearch Bytes.lt e tail).2 <;> rfl
+
+/-- The inner `for` of `Check` with `indexAfterBS`. -/
+def checkLineBS (set : SortedSet) (maxLen : Nat) : Nat → Bytes → Int × Nat → Chk (Option (Int × Nat))
+  | 0, _, _ => .error ()
+  | fuel + 1, acrh, (pos, empties) => do
+    let (name, rest, commaFound) ← cutAtComma acrh maxLen
+    match ← trimOWS name Facts.headers_MaxOWSBytes with
+    | none => return none
+    | some name =>
+      if name.isEmpty then
+        let e := empties + 1
+        if e > Facts.headers_MaxEmptyElements then return none
+        else if !commaFound then return some (pos, e)
+        else checkLineBS set maxLen fuel rest (pos, e)
+      else
+        match ← indexAfterBS set pos name with
+        | none => return none
+        | some i =>
+          if !commaFound then return some (i, empties)
+          else checkLineBS set maxLen fuel rest (i, empties)
+
+theorem checkLineBS_eq (set : SortedSet) (h : set.WF) (maxLen : Nat) :
+    ∀ (fuel : Nat) (acrh : Bytes) (st : Int × Nat), checkLineBS set maxLen fuel acrh st = checkLine set maxLen fuel acrh st := by
+  intro fuel
+  induction fuel with
+  | zero => intro acrh st; rfl
+  | succ fuel ih =>
+    intro acrh st
+    obtain ⟨pos, empties⟩ := st
+    simp only [checkLineBS, checkLine, indexAfterBS_eq set h, ih]
+    rfl
+
+def checkLinesBS (set : SortedSet) (maxLen : Nat) : List Bytes → Int × Nat → Chk Bool
+  | [], _ => pure true
+  | l :: ls, st => do
+    match ← checkLineBS set maxLen (l.length + 1) l st with
+    | none => return false
+    | some st' => checkLinesBS set maxLen ls st'
+
+theorem checkLinesBS_eq (set : SortedSet) (h : set.WF) (maxLen : Nat) :
+    ∀ (lines : List Bytes) (st : Int × Nat), checkLinesBS set maxLen lines st = checkLines set maxLen lines st := by
+  intro lines
+  induction lines with
+  | nil => intro st; rfl
+  | cons l ls ih => intro st; simp only [checkLinesBS, checkLines, checkLineBS_eq set h, ih]; rfl
+
+/-- `headers.Check` with every index expression checked and every `slices.BinarySearch` run as the library's loop. -/
+def checkBS (set : SortedSet) (acrhs : List Bytes) : Chk Bool :=
+  let maxLen := Facts.headers_MaxOWSBytes + set.maxLen + Facts.headers_MaxOWSBytes + 1
+  checkLinesBS set maxLen acrhs (-1, 0)
+
+/-- **Refinement.** On every well-formed set, `headers.Check` as the code runs it returns `.ok` of the list-level model's verdict. -/
+theorem checkBS_refines (set : SortedSet) (h : set.WF) (acrhs : List Bytes) : checkBS set acrhs = .ok (Headers.check set acrhs) := by
+  unfold checkBS
+  rw [checkLinesBS_eq set h]
+  exact check_refines set acrhs
+
+end Ix
+end Cors
